@@ -475,7 +475,7 @@ if _tol is not None:
             yield "recorded-as-pending", both(s._pending_alarms.has(result), same_map(s._pending_alarms, old._pending_alarms, but=result))
             yield "nothing-else-touched", tor_rest_untouched(old, s, "_pending_alarms")
 
-    @contract(TOL + "TornadoEventLoop.alarm.<wrapped>", property="C13", replayable=False)
+    @contract(TOL + "TornadoEventLoop.alarm.<wrapped>", property=("C13", "C12"), replayable=False)
     class tor_alarm_wrapped:
         """What the IOLoop runs when the alarm is due (inside `_also_call_idle.<wrapper>`, contracts/C13_asyncio_idle.py):
         free variables self / callback / handle universally quantified."""
@@ -552,7 +552,7 @@ if _tol is not None:
             yield "only-a-descriptor-the-ioloop-already-handles-is-refused", old._loop.reg(a.fd)
             yield "nothing-changed", tor_rest_untouched(old, s)
 
-    @contract(TOL + "TornadoEventLoop.watch_file.<handler>", property="C13", replayable=False)
+    @contract(TOL + "TornadoEventLoop.watch_file.<handler>", property=("C13", "C12"), replayable=False)
     class tor_watch_handler:
         """What the IOLoop runs when the descriptor is readable (inside `_also_call_idle.<wrapper>`)."""
         globals_ = dict(self=TOR, callback=Opaque("LoopCallback"))
